@@ -327,12 +327,13 @@ class Memory():
     def write(self, memory, addr, data, flush_queue=False, progress_cb=None):
         """Write the specified data to the given memory at the given address"""
         wreq = _WriteRequest(memory, addr, data, self.cf, progress_cb)
-        if memory.id not in self._write_requests:
-            self._write_requests[memory.id] = []
 
         # Workaround until we secure the uplink and change messages for
         # mems to non-blocking
         self._write_requests_lock.acquire()
+        # The queue of this memory is looked up under the lock, a disconnect clears the queues under the same lock
+        if memory.id not in self._write_requests:
+            self._write_requests[memory.id] = []
         if flush_queue:
             self._write_requests[memory.id] = self._write_requests[
                 memory.id][:1]
